@@ -387,6 +387,17 @@ class _Gen:
         else:
             rows = [[val(i, j) for i in range(len(ios))] for j in range(len(vis))]
             rows = [[sig(v, 6) for v in row] for row in rows]
+        if two_d and r.random() < 0.25:
+            # presentation variants of the same table: rows in descending / arbitrary order, vi written negative
+            perm = list(range(len(vis)))
+            if r.random() < 0.5:
+                perm.reverse()
+            else:
+                r.shuffle(perm)
+            vis = [vis[k] for k in perm]
+            rows = [rows[k] for k in perm]
+            if r.random() < 0.4:
+                vis = [-v for v in vis]
         return {"vi": vis, "io": ios, z: rows}
 
     # ---------------------------------------------------------------- phases
